@@ -573,6 +573,9 @@ func matchSignature(w matchWitness, m mismatch) (string, map[string]string) {
 	return clause, sub
 }
 
+// matchSamples: written-out samples taken by the match part of this worker (the rest is left to the sync part)
+var matchSamples int
+
 const chunkSize = 12
 
 // chunk returns the k-th slice of the enumerated rows of a shape.
@@ -643,7 +646,8 @@ func runMatchPart(r *core.Run) {
 								r.Count("skipped_unsupported", 1)
 								continue
 							}
-							if len(ms) == 0 && nmatch > 0 && nmatch < len(rows) && len(set) == 2 && route == "where" && r.WantSample() {
+							if len(ms) == 0 && nmatch > 0 && nmatch < len(rows) && len(set) == 2 && route == "where" && matchSamples < 3 && r.WantSample() {
+								matchSamples++
 								var hit, miss []string
 								for _, rw := range rows {
 									if refMatch(rw.cols(ix), search, sh.CI) {
